@@ -35,6 +35,9 @@ var CRLBehaviours = []string{
 	"delta-ok", "delta-lists", "delta-removes", "delta-num-lt", "delta-num-eq",
 	"delta-ind-lt", "delta-ind-eq", "delta-ind-gt", "delta-no-ind",
 	"delta-wrong-signer", "delta-expired", "delta-no-nextupdate", "delta-crit-ext",
+	// a delta whose thisUpdate is EARLIER than the base's (the producer of a
+	// delta picks that field): authentic and current, or not
+	"delta-older-ok", "delta-older-wrong-signer", "delta-older-expired", "delta-older-forged-remove",
 	"delta-no-number", "base-no-number-delta",
 	"fetch-fail",
 }
@@ -45,7 +48,7 @@ var CRLHTTPOnly = []string{"http-404", "http-500", "garbage", "empty", "truncate
 // CRLClass gives the reference class of a behaviour.
 func CRLClass(beh string) string {
 	switch beh {
-	case "clean", "clean-idp", "clean-noncrit-ext", "lists-removed", "delta-ok", "delta-removes", "delta-ind-lt", "delta-ind-eq":
+	case "clean", "clean-idp", "clean-noncrit-ext", "lists-removed", "delta-ok", "delta-removes", "delta-ind-lt", "delta-ind-eq", "delta-older-ok":
 		return CRLOK
 	case "lists", "lists-hold", "delta-lists":
 		return CRLRevoked
@@ -241,6 +244,21 @@ func (k *Kit) buildCRL(beh string, slot int) *CRLSet {
 		delta.DeltaInd = nil
 	case "delta-wrong-signer":
 		delta.SignKey = unrelated
+	case "delta-older-ok", "delta-older-wrong-signer", "delta-older-expired", "delta-older-forged-remove":
+		base.ThisUpdate = pki.Past.Add(48 * time.Hour)
+		delta.ThisUpdate = pki.Past
+		switch beh {
+		case "delta-older-wrong-signer":
+			delta.SignKey = unrelated
+		case "delta-older-expired":
+			delta.NextUpdate = pki.Past.Add(time.Hour)
+		case "delta-older-forged-remove":
+			// the authentic base has the certificate on hold; a forged "old" delta
+			// claims to release it
+			base.Entries = append(base.Entries, pki.CRLEntry{Serial: serial, Time: t1, Reason: 6})
+			delta.Entries = append(delta.Entries, pki.CRLEntry{Serial: serial, Time: t2, Reason: 8})
+			delta.SignKey = unrelated
+		}
 	case "delta-expired":
 		delta.NextUpdate = pki.Past.Add(time.Hour)
 	case "delta-no-nextupdate":
